@@ -83,8 +83,10 @@ Proof. vm_compute. repeat split; reflexivity. Qed.
 Print Assumptions C01_nonfunctional_refuted.
 
 (** non-vacuity: a program with an input (captured keyword subset, wrapped by a data handler is not needed
-    here), a nested interception, an output called twice and a caught recorded exception meets every
-    hypothesis of C01_replay_reproduces *)
+    here), a nested interception, an output called twice and a caught recorded exception.  [C01_example] shows
+    the static hypotheses and the shape of the run; the remaining hypotheses of each theorem (functional and
+    canonical writes, agreement of the recording, a saved run) are exhibited by the [.._nonvacuous] examples
+    below (wp-audit). *)
 Definition cf_g : icfg :=
   {| i_alias := U"get"; i_resolver := RNone; i_cap := CapList [(None, Some (U"a"))]; i_static := false; i_handler := None;
      i_prep_discards := false; i_run_missing := false; i_vmiss := VMNone; i_fallbacks := FbList [U"old"] |}.
@@ -101,3 +103,87 @@ Example C01_example :
   replayable prog_example /\ intercepting s0 /\ aborts_of l0 = 0%nat /\ o = OVal (VInt 5) /\
   length (writes_of l0) = 5%nat /\ length (answers_of l0) = 3%nat.
 Proof. vm_compute. repeat split; try reflexivity; intros; discriminate. Qed.
+
+(** ---- non-vacuity, one instance per theorem meeting ALL of its premises at once (wp-audit) ---- *)
+Ltac in_cases I := repeat (destruct I as [I|I]; [|]); try contradiction.
+Ltac functional_tac :=
+  let k := fresh "k" in let d1 := fresh "d1" in let d2 := fresh "d2" in let I1 := fresh "I1" in let I2 := fresh "I2" in
+  intros k d1 d2 I1 I2; in_cases I1; in_cases I2; inversion I1; subst; inversion I2; subst; reflexivity.
+
+(** C01_nested_not_intercepted: the same program started INSIDE an interception (flag set): replayable, not
+    intercepting, nothing aborted - and the run is not empty (12 events, three decorated calls) *)
+Example C01_nested_not_intercepted_nonvacuous :
+  let s := mk_rst true true false [] true in
+  let P := {| p_rate := 1; p_ignore := false; p_skipped := false; p_copy := false |} in
+  let '(o, _, l) := rec_exec P prog_example [] s in
+  replayable prog_example /\ should_intercept_rec s = false /\ aborts_of l = 0%nat /\
+  o = OVal (VInt 5) /\ length l = 12%nat.
+Proof. vm_compute. repeat split; reflexivity. Qed.
+
+(** C01_simulation: outer premises and the three premises inside [sim_res], for a recording that holds the
+    run's writes and something unrelated besides *)
+Example C01_simulation_nonvacuous :
+  let s0 := mk_rst true true false [] false in
+  let P := {| p_rate := 1; p_ignore := false; p_skipped := false; p_copy := false |} in
+  let '(o, _, l0) := rec_exec P prog_example [] s0 in
+  let R := (U"unrelated", DVal (VInt 0)) :: snapshot_of l0 in
+  replayable prog_example /\ intercepting s0 /\ aborts_of l0 = 0%nat /\ o <> OInt /\ agree R (writes_of l0) /\
+  length (writes_of l0) = 5%nat /\ length (answers_of l0) = 3%nat.
+Proof.
+  vm_compute. repeat split; try reflexivity; try discriminate.
+  intros k d I. in_cases I; inversion I; subst; reflexivity.
+Qed.
+
+(** C01_replay_reproduces: additionally the writes (operation entry included) are functional and canonical *)
+Example C01_replay_reproduces_nonvacuous :
+  let s0 := mk_rst true true false [] false in
+  let P := {| p_rate := 1; p_ignore := false; p_skipped := false; p_copy := false |} in
+  let '(o, _, l0) := rec_exec P prog_example [] s0 in
+  let l := l0 ++ op_writes o in
+  replayable prog_example /\ intercepting s0 /\ aborts_of l0 = 0%nat /\ o <> OInt /\
+  functional (writes_of l) /\ (forall k d, List.In (k, d) (writes_of l) -> canon_datum d = d) /\
+  length (writes_of l) = 6%nat /\ length (answers_of l0) = 3%nat.
+Proof.
+  vm_compute. repeat split; try reflexivity; try discriminate.
+  - functional_tac.
+  - intros k d I. in_cases I; inversion I; subst; reflexivity.
+Qed.
+
+(** C01_replay_reproduces_run: the decorated operation around the same body, on a fresh recorder and an empty
+    cassette: idle, replayable, saved (CSave present), not interrupted, functional, canonical *)
+Example C01_replay_reproduces_run_nonvacuous :
+  let P := {| p_rate := 1; p_ignore := false; p_skipped := false; p_copy := false |} in
+  let op := {| op_class := U"Op"; op_classlevel := false; op_extractor := XNone; op_body := prog_example |} in
+  let '(ob, w') := record_run (fun _ => 0) true P op false fresh_rst fresh_world in
+  let '(o, _, l0) := rec_exec P (op_body op) [] (mk_rst true true false [] false) in
+  let l := l0 ++ op_writes o in
+  idle fresh_rst /\ replayable (op_body op) /\
+  (exists d m, List.In (CSave (w_next fresh_world) d m) (ob_cass ob)) /\ o <> OInt /\
+  functional (writes_of l) /\ (forall k d, List.In (k, d) (writes_of l) -> canon_datum d = d) /\
+  length (w_saved w') = 1%nat /\ length (ob_trace ob) = 12%nat.
+Proof.
+  vm_compute. repeat split; try reflexivity; try discriminate.
+  - do 2 eexists. right. left. reflexivity.
+  - functional_tac.
+  - intros k d I. in_cases I; inversion I; subst; reflexivity.
+Qed.
+
+(** the handler clause of [replayable] (restore (prepare v) = v for EVERY value, argument tuple and kwargs) is
+    satisfiable by a handler that is not the identity: prepare wraps the value in a list, restore unwraps it *)
+Definition ih_wrap : ihandler :=
+  {| ih_prep := fun v _ _ => Some (VList [v]);
+     ih_restore := fun rv _ _ => match rv with VList [v] => Some v | _ => None end |}.
+Definition cf_h : icfg :=
+  {| i_alias := U"load"; i_resolver := RNone; i_cap := CapAll; i_static := true; i_handler := Some ih_wrap;
+     i_prep_discards := false; i_run_missing := false; i_vmiss := VMNone; i_fallbacks := FbNone |}.
+Definition prog_handler : code := Inp cf_h (Ret (Lit (VInt 3))) [Lit (VInt 1)] [] (Ret (Var 0)).
+Example C01_replayable_with_handler :
+  replayable prog_handler /\
+  let '(o, _, l0) := rec_exec {| p_rate := 1; p_ignore := false; p_skipped := false; p_copy := false |}
+                              prog_handler [] (mk_rst true true false [] false) in
+  o = OVal (VInt 3) /\ map snd (writes_of l0) = [DVal (VList [VInt 3])] /\ aborts_of l0 = 0%nat.
+Proof.
+  split.
+  - cbn. repeat split. intros v full kw rv E. inversion E. reflexivity.
+  - vm_compute. repeat split; reflexivity.
+Qed.
